@@ -8,7 +8,7 @@ ASTRecordLayout, so `that.typ` and `that.d.typ` (overlaid through a union) are t
 
 Values: int (known constant) | 'NZ' (known non-zero) | None (unknown).
 """
-from core import strip, kids, const_of, call_args, AnalysisBroken, CASTS
+from core import strip, kids, const_of, call_args, AnalysisBroken, CASTS, effective_cond
 
 NZ = "NZ"
 
@@ -384,6 +384,8 @@ class Interp:
             for st1 in cur:
                 if len(ss) == 2 and "cond" in blk and blk.get("tk") != "SwitchStmt" and ss[0] is not None and ss[1] is not None:
                     cond = nodes.get(blk["cond"])
+                    if cond is not None:
+                        cond = effective_cond(cond)
                     for s, pol in ((ss[0], True), (ss[1], False)):
                         ns = self.refine(fn, cond, pol, st1) if cond is not None else st1.copy()
                         if ns is not None:
